@@ -12,11 +12,11 @@ P = {
  "C02": ("other", "taint (depth-independence) + per-depth constant extraction + provenance of the scaling/truncation/clamp chain",
   "Checks on the code the four premises of the paper proof of the prefix property: (P1) base cell and in-base-cell coordinates come from a function that reads nothing of the layer; (P2) scaling is an exact power of two per depth, added to the exponent bits: time_half_nside = (depth-1)<<52 for all 30 depths; (P3) the scaled float reaches `as u32` with no other float operation; (P4) the clamp compares with nside = 2^depth and substitutes nside-1. The lemma's float side conditions are argued on paper, not checked.", "§5 C02"),
  "C03": ("other", "E1 must-facts with callee inlining + E4 constant extraction per depth + E6 symbolic vertex forms and rotate-scale identity + E9",
-  "Decides for all inputs: a cell number >= n_hash never reaches a normal return of the 9 Layer accessors and 6 free wrappers, with n_hash = 12*4^depth extracted from Layer::new for the 30 depths; sph_coo rejects offsets outside [0,1); the four vertices returned by vertices() and by vertex()/vertices_map() are the same projection-plane points (S,E,N,W offsets). Round trips through hash are float numerics and are not decided. Also: shift_rotate_scale is ((x+y+1), (y+9-x)) * 2^(depth-1) for the 30 depths incl. depth 0; no cancelling form on the accessor / hash paths.", "§5 C03"),
+  "Decides for all inputs: a cell number >= n_hash never reaches a normal return of the 9 Layer accessors and 6 free wrappers, with n_hash = 12*4^depth extracted from Layer::new for the 30 depths; sph_coo rejects offsets outside [0,1); the four vertices returned by vertices() and by vertex()/vertices_map() are the same projection-plane points (S,E,N,W offsets). Round trips through hash are float numerics and are not decided. Also: shift_rotate_scale is ((x+y+1), (y+9-x)) * 2^(depth-1) for the 30 depths incl. depth 0; no cancelling form on the accessor / hash paths. Also: in hash_with_dxdy the axis the base-cell step forces to the last row/column gets offset 1.0 (21 finite keys), its tie-breaks compare base-cell-level quantities (not the floor at this depth) and the corrected cell coordinates are the ones decoded.", "§5 C03"),
  "C04": ("other", "E4 per-key table extraction (SCCP) compared with an independent vertex-sharing topology model + E1 guards + provenance of the glue",
-  "Decides for all cells and depths (unbounded inputs stay symbolic): out-of-range cell numbers are rejected by neighbours/neighbour; the MainWind direction algebra; every entry of the three seam tables (12 base cells x 9 directions) equals the neighbour derived from the HEALPix vertex topology at nside 2, 4, 8 (which pins the symbolic form, hence every depth); the base-cell tables in lib.rs agree; the glue passes (i+di, j+dj) and the base-cell direction in the right slots. What remains informal is the composition of these verified pieces along neighbours()'s top-level control flow.", "§5 C04"),
+  "Decides for all cells and depths (unbounded inputs stay symbolic): out-of-range cell numbers are rejected by neighbours/neighbour; the MainWind direction algebra; every entry of the three seam tables (12 base cells x 9 directions) equals the neighbour derived from the HEALPix vertex topology at nside 2, 4, 8 (which pins the symbolic form, hence every depth); the base-cell tables in lib.rs agree; the glue passes (i+di, j+dj) and the base-cell direction in the right slots. What remains informal is the composition of these verified pieces along neighbours()'s top-level control flow. Also: the depth-0 helper neighbour(base_cell, direction) has a value exactly for base_cell < 12 (all 2304 inputs).", "§5 C04"),
  "C05": ("other", "control dependence + provenance over MIR + E9 cancellation lint (necessary conditions only)",
-  "Necessary conditions of the no-miss claim, decided on the code: a cell is discarded only on the failed comparison with the OUTER threshold (radius + cell bound); all four children are visited; the per-depth bound is indexed in step with the depth; the same radius is used everywhere; the custom variant keeps a coarse cell whenever a deeper one maps to it; the outer threshold argument is clamped at pi; every haversine call site passes the cosines of the right latitudes; the depth-0 bound agrees across the sibling helpers. The geometric claim itself (bounds are bounds, haversine rounding) is not decided. Also: no `1 - cos d` / law-of-cosines form in the distance computations of the cone path.", "§5 C05"),
+  "Necessary conditions of the no-miss claim, decided on the code: a cell is discarded only on the failed comparison with the OUTER threshold (radius + cell bound); all four children are visited; the per-depth bound is indexed in step with the depth; the same radius is used everywhere; the custom variant keeps a coarse cell whenever a deeper one maps to it; the outer threshold argument is clamped at pi; every haversine call site passes the cosines of the right latitudes; the depth-0 bound agrees across the sibling helpers. The geometric claim itself (bounds are bounds, haversine rounding) is not decided. Also: no `1 - cos d` / law-of-cosines form in the distance computations of the cone path. Also: the value compared with the outer threshold is capped at the threshold's saturation value 1.", "§5 C05"),
  "C06": ("other", "E1 facts + control dependence + must-pass-through on def-use chains + E9",
   "Decides: radius >= pi returns exactly push_all(0, 0, 12, true); 'full' is pushed only under the inner threshold; every push is under one of the two thresholds; the 'no full cell' sentinel makes the full test unsatisfiable; the small-cone branch sorts, then de-duplicates, then pushes; every returned BMOC passes through pack, which merges only four full siblings under the exact look-ahead bound. Geometric correctness of the thresholds and pack's fixpoint are not decided. Also: no cancelling form in the distance computations.", "§5 C06"),
  "C07": ("other", "E4 truth tables at emission sites + must-pass-through on loop back edges (necessary conditions only)",
@@ -32,15 +32,15 @@ P = {
  "C12": ("other", "control dependence + sortedness typestate + provenance + truth table of the longitude-range test + E9 (necessary conditions only)",
   "Necessary conditions: a cell in the vertex-cell list is never discarded; the list is built from every polygon vertex and sorted before binary search; 'full' only under n == 4 vertices inside; roots sorted; every polygon vertex enters the maximum that sizes the bounding cone. Tightness and the point-in-polygon predicate are not decided. Also: is_in_lon_range is the cyclic half-open arc of the shorter way round at 448 triples incl. ties.", "§5 C12"),
  "C13": ("other", "E1 must-facts + typestate/shape rules + hemisphere rule + E9",
-  "Decides: a semi-major axis >= pi/2 never reaches a normal return of any of the five entry points (both profiles in thorough), and the ellipse is only constructed under the guard. Necessary: ordered emission, packed result, 'full' only if contains_cone or all four vertices inside. Geometry not decided. Also: contains / contains_cone reach the ellipse test only on the near hemisphere.", "§5 C13"),
+  "Decides: a semi-major axis >= pi/2 never reaches a normal return of any of the five entry points (both profiles in thorough), and the ellipse is only constructed under the guard. Necessary: ordered emission, packed result, 'full' only if contains_cone or all four vertices inside. Geometry not decided. Also: contains / contains_cone reach the ellipse test only on the near hemisphere. Also: no arc cosine of a dot product on the distance path (E9).", "§5 C13"),
  "C14": ("other", "E5 bit-vector proofs per delta_depth + E4 tables vs topology model + E1 domain guard",
   "Proves for every delta_depth 1..=29: corner helpers and side helpers produce hash*4^delta | the spread of the fixed/running coordinate. Decides: facing-direction tables agree with the topology model; the convenience functions accept every depth+delta <= 29. internal_edge_sorted's index arithmetic is not decided.", "§5 C14"),
  "C15": ("other", "E5 bit-vector proofs of lower-depth re-encoding + must-pass-through + per-path push invariant + level bound (necessary conditions only)",
   "Proves the raw-value re-encoding when lowering depth for all triples; necessary: to_bmoc returns Some after any drain, drains merge with `or`, pack only merges four full siblings. Coverage equality for all push sequences is not decided. Also: the merge level of the fixed-depth builder is bounded by its depth on every path; push keeps `sorted` equivalent to strictly increasing.", "§5 C15"),
  "C16": ("other", "control dependence on the unrolled decision tree + table data check + E1",
-  "Decides for all radii: each leaf of best_starting_depth returns the deepest depth whose tabulated limit exceeds r (given the table is strictly decreasing, which is checked on the data), and the refusal matches has_best_starting_depth; necessary: the table follows the 1/nside pattern to second order, the sibling helpers agree on the depth-0 and polar-cap bounds, and with debug assertions on no path pins an input-derived value to a single point. That the table values bound real cell sizes is not decided.", "§5 C16"),
+  "Decides for all radii: each leaf of best_starting_depth returns the deepest depth whose tabulated limit exceeds r (given the table is strictly decreasing, which is checked on the data), and the refusal matches has_best_starting_depth; necessary: the table follows the 1/nside pattern to second order, the sibling helpers agree on the depth-0 and polar-cap bounds, and with debug assertions on no path pins an input-derived value to a single point. That the table values bound real cell sizes is not decided. Also: the tabulated limits do not exceed the analytic width of the narrowest cells (0.68877 / nside, depth >= 12); the polar-cap bound adds the cone's half-width in longitude (read at sample points) and the scalar and multi-depth variants agree; comparisons established only in the dev profile on a reduced longitude hold on its whole range.", "§5 C16"),
  "C17": ("other", "E1 must-facts + E8 floor-linear forms + finite lookup table vs model + E9",
-  "Decides: arguments outside [-pi/2,pi/2] / [-2,2] never reach a normal return of proj/unproj. Necessary: the longitude reduction yields offset in [0,7] and remainder in [-1,1] for up to 8 turns; base_cell_from_proj_coo read as a lookup table equals the topology model on 48 points including the diagonal seams. The formulae and the inverse property are not decided. Also: the table is read on the outer edges of the polar facets and at the poles (one of the base cells meeting there); the edge clamp is two-sided.", "§5 C17"),
+  "Decides: arguments outside [-pi/2,pi/2] / [-2,2] never reach a normal return of proj/unproj. Necessary: the longitude reduction yields offset in [0,7] and remainder in [-1,1] for up to 8 turns; base_cell_from_proj_coo read as a lookup table equals the topology model on 48 points including the diagonal seams. The formulae and the inverse property are not decided. Also: the table is read on the outer edges of the polar facets and at the poles (one of the base cells meeting there); the edge clamp is two-sided. Also: the threshold below which unproj skips the division by sqrt(3(1-|z|)) excludes 0 and costs at most 0.6413 * threshold <= 1e-14 rad; the lookup table is also read in the dev profile and at x = 8.", "§5 C17"),
  "C18": ("proof", "E5 GF(2)-affine bit-vector abstract interpretation of every ZOrderCurve impl + E4 dispatch extraction + per-depth symbolic uniq round trip",
   "Every clause of the statement is decided for all inputs: for each implementation in the default, +bmi2 (and cfg(test)) builds the derived bit-vector of i02h/oj2h/ij2h/ij2i∘h2ij/ij2j∘h2ij equals the interleave specification on the coordinate width the dispatcher uses it for; get_zoc's selection is extracted for the 30 depths and rejects depth > 29; uniq and IVOA uniq round trips hold per depth with the hash symbolic.", "§5 C18"),
  "C19": ("proof", "E6 polynomial identities over (dx, dy) per arm + E4 arm extraction + rotate-scale identity + E9",
